@@ -291,6 +291,8 @@ class Scenario:
     def model_lines(self):
         L = ["opts %s %d %d %s %s" % (self.coin, 1 if self.verify else 0, self.start, "-" if self.stop is None else self.stop, self.callback)]
         L.append("xorkey %s" % ("none" if self.xorkey is None else hx(self.xorkey)))
+        if getattr(self, "want_fstrace", False):
+            L.append("fstrace")
         for k, v in self.kvs:
             L.append("kv %s %s" % (hx(k), hx(v)))
         for name, f in self.files.items():
@@ -393,6 +395,8 @@ def parse_model_outputs(lines):
             cur["files"][curfile].append(rest)
         elif tag == "out":
             cur["out"].append(rest)
+        elif tag == "fstrace":
+            cur["fstrace"] = rest.split()
         elif tag == "ev":
             k, f = rest.split()
             cur["ev"].append((k, int(f)))
